@@ -60,7 +60,9 @@ def fix(c):
             c['predict'] = None if c['predict'] is None else c['predict']
         if c['M'] - (c['L'] - 1) < 1:
             return None
-        if c['nsweeps'] > 1 and c['L'] == 1 and False:
+        if c['nsweeps'] > 1 and c['L'] == 1 and not c['jac']:
+            # single-level Gauss-Seidel sweeps on the 'coarsest' (only) level: controller_MPI asserts one sweep there
+            # (its documented contract), the serial controller silently performs one; outside the quantifier
             return None
     if c['kind'] == 'nodes':
         if c['sweeper'] == 'imex' and c['QI'] in ('Qpar',):
